@@ -236,6 +236,15 @@ class Specialiser:
                 return [s]
             if e.func.attr == "append":
                 return [s]
+        if isinstance(e, ast.Call):
+            # a call evaluated for its side effect only: harmless to the traces if it cannot touch the tracked objects,
+            # i.e. none of its arguments / its receiver is a region, a region list or the values dict
+            parts = [self.ev(a, s) for a in e.args] + [self.ev(k.value, s) for k in e.keywords]
+            if isinstance(e.func, ast.Attribute):
+                parts.append(self.ev(e.func.value, s))
+            if not any(isinstance(p, tuple) and p and p[0] in ("region", "rlist", "dict") for p in parts):
+                s.trace.append(Ev("effect", st, src=norm(e)[:80]))
+                return [s]
         raise AnalysisError(f"specialiser: unmodelled expression statement `{norm(e)[:70]}` in {self.fn.name}")
 
     def yield_(self, y, s, st):
